@@ -1819,7 +1819,7 @@ Proof.
     assert (Hrun : jsteps pf jparser0 (sink0 None) b (jset_lit (jset_isdbl pn (has_de lit)) lit) (sink0 None) []).
     { apply (vstep _ _ _ _ _ _ _ _ _ (or_introl (conj eq_refl eq_refl) : vstate jparser0 jStart) Hst). cbn [length]. lia. }
     destruct (report_ok pf (sink0 None) lit isint n pf_ok EV eq_refl Hshape) as (k & z & Hrep & Hcn & Hok).
-    exists (TVal (SNum k z) false), (jpop (jset_lit (jset_isdbl pn (has_de lit)) lit)).
+    exists (TVal (SNum k z) false), (jset_lit (jpop (jset_lit (jset_isdbl pn (has_de lit)) lit)) []).
     rewrite (jrun_parse_steps _ _ _ _ Hrun).
     unfold with_final, jfinalize. subst pn. unfold jparser0. jsimpl.
     change (jNumber =? jNumber) with true. cbv iota. rewrite Hde, Hrep.
@@ -1903,7 +1903,7 @@ Section Stream.
     set (pn := jset_isdbl (jpush (jset_lit (jset_isdbl (jset_cur p jStart) false) []) jNumber) false) in *.
     rewrite Er, (step_number_eof pf pn s lit eq_refl eq_refl Hns) in Hsv.
     destruct (report_ok pf s lit isint n pf_ok EV Hs Hshape) as (k & z & Hrep & Hcn & Hok).
-    exists k, z, (jset_lit (jset_isdbl pn (has_de lit)) lit), (jpop (jset_lit (jset_isdbl pn (has_de lit)) lit)).
+    exists k, z, (jset_lit (jset_isdbl pn (has_de lit)) lit), (jset_lit (jpop (jset_lit (jset_isdbl pn (has_de lit)) lit)) []).
     split; [|split; [|split; assumption]].
     - apply (vstep _ _ _ _ _ _ _ _ _ (or_introl (conj Hc eq_refl) : vstate p jStart) Hsv). cbn [length]. lia.
     - set (pa := jset_lit (jset_isdbl pn (has_de lit)) lit).
@@ -1914,7 +1914,9 @@ Section Stream.
       unfold with_final, jfinalize.
       change (jp_cur pa) with jNumber. change (jp_lit pa) with lit. change (jp_isdbl pa) with (has_de lit).
       change (jNumber =? jNumber) with true. cbv iota. rewrite Hde, Hrep.
-      change (jisnil jpnil) with true. cbv iota beta. cbn [negb]. rewrite Hp1, Hp2. reflexivity.
+      change (jisnil jpnil) with true. cbv iota beta. cbn [negb].
+      change (jp_states (jset_lit (jpop pa) [])) with (jp_states (jpop pa)).
+      change (jp_cur (jset_lit (jpop pa) [])) with (jp_cur (jpop pa)). rewrite Hp1, Hp2. reflexivity.
   Qed.
 
   Lemma stream_sim : forall fuel b vs, json_decode_all pf fuel b = Some vs -> all_bytes b = true ->
